@@ -774,8 +774,8 @@ def gen_c01(tier, seed):
     # firmware-saved NVRAM with each valid host-speed option (offset 2: 0..5; 5 = 300 baud, where a character takes
     # longer than the 20 ms key spacing), and a full window of line feeds (scrolling) before the typing starts
     bursts = [(2, 1000, 'burst', nb) for nb in (3, 4)] if tier == 'quick' else [(v, k, 'burst', nb) for v in (1, 2) for k in (250, 1000) for nb in (2, 3, 4)]
-    extra = [(2, 1000, 'opt5', 0), (2, 1000, 'blank', 130), (1, 1000, 'blank', 130), (1, 1000, 'traffic', 2), (1, 1000, 'traffic', 25), (2, 1000, 'traffic', 2), (2, 1000, 'special', 0), (1, 1000, 'special', 0)] if tier == 'quick' else \
-            [(v, k, 'traffic', d) for v in (1, 2) for k in (250, 1000) for d in (1, 2, 5, 25)] + [(v, k, 'special', 0) for v in (1, 2) for k in (250, 1000, 4000)] + \
+    extra = [(2, 1000, 'opt5', 0), (2, 1000, 'blank', 130), (1, 1000, 'blank', 130), (1, 1000, 'traffic', 2), (1, 1000, 'traffic', 25), (2, 1000, 'traffic', 2), (2, 1000, 'special', 0), (1, 1000, 'special', 0), (1, 1000, 'arrows', 0), (2, 1000, 'arrows', 0)] if tier == 'quick' else \
+            [(v, k, 'traffic', d) for v in (1, 2) for k in (250, 1000) for d in (1, 2, 5, 25)] + [(v, k, 'special', 0) for v in (1, 2) for k in (250, 1000, 4000)] + [(v, k, 'arrows', 0) for v in (1, 2) for k in (250, 1000, 4000)] + \
             [(2, k, 'opt%d' % o, 0) for o in range(6) for k in (250, 1000)] + [(v, k, 'blank', 130) for v in (1, 2) for k in (250, 1000, 4000)]
     for (v, k, nv, nlf) in [(a, b, c, 0) for (a, b, c) in combos] + extra + bursts:
         nlf_burst, nlf = (nlf, 0) if nv == 'burst' else (0, nlf)
@@ -824,6 +824,16 @@ def gen_c01(tier, seed):
             ops += ['qb:%x' % kc for kc in keys]
             ops += ['k:%x' % 2000000, 'run:%x' % nlf_burst, 'k:%x' % k, 'run:%x' % (t20 * 8)]
             keys_typed = []
+        elif nv == 'arrows':
+            # the four arrow keys and ordinary keys mixed: each arrow key must come out as its ANSI cursor sequence
+            # (ESC [ A / B / C / D), whole and in order, on both firmware images
+            ARROW = {0x92: [0x1b, 0x5b, 0x41], 0x90: [0x1b, 0x5b, 0x42], 0x9b: [0x1b, 0x5b, 0x43], 0x9a: [0x1b, 0x5b, 0x44]}
+            keys_typed = []
+            for kc in keys:
+                keys_typed.append(kc)
+                if r.random() < 0.6:
+                    keys_typed.append(r.choice(list(ARROW)))
+            keys = sum([ARROW.get(kc, [kc]) for kc in keys_typed], [])
         else:
             keys_typed = keys
         for kc in keys_typed:
